@@ -494,7 +494,7 @@ HEADER = ('From Coq Require Import List String NArith Bool.\nFrom FB Require Imp
 def fsopt_mask():
     sys.path.insert(0, os.path.join(ROOT, 'translator'))
     import rust_abi
-    t = rust_abi.translate(REPO)
+    t = rust_abi.translate(REPO, lenient_conv=True)      # only the FsOptions bitflags are used here
     m = 0
     for n, ty, ms in t['bitflags']:
         if n == 'FsOptions':
